@@ -160,8 +160,18 @@ fn go<B: SimField, E: FieldElement<BaseField = B>, H: ElementHasher<BaseField = 
 
 fn byzantine<B: SimField, E: FieldElement<BaseField = B>, H: ElementHasher<BaseField = B>>(ch: &mut Chooser, ctx: &mut Ctx, thorough: bool) {
     let cfg = gen_fri_cfg(ch, if thorough { 12 } else { 10 });
-    let n = cfg.n();
+    let full = cfg.n();
     let domain = cfg.domain();
+    // The claimed bound + 1 is usually the whole polynomial size domain / blowup (as in a STARK),
+    // but the FRI API takes any bound: one run in four claims a bound + 1 that is NOT a power of
+    // two - a multiple of folding^layers in (size / 2, size), so that the degree schedule still
+    // divides and the domain is the same. Polynomials of degree bound + 1 .. size - 1 must then be
+    // refused although they fit the domain's own schedule.
+    let fl = cfg.folding.pow(cfg.layers() as u32);
+    let n = if full / fl >= 4 && ch.chance("bound.not_pow2?", 1, 4) { full - fl * (1 + ch.index("bound.j", full / (2 * fl) - 1)) } else { full };
+    if n != full {
+        ctx.probe("claimed_bound_plus_one_not_a_power_of_two");
+    }
     let max_degree = n - 1;
     let salt = ch.u64("fn.salt");
     let mut rng = simcore::rng::Xoshiro::from_u64(salt);
@@ -378,7 +388,9 @@ fn byzantine<B: SimField, E: FieldElement<BaseField = B>, H: ElementHasher<BaseF
     if wrong_claim && real.accepted() {
         ctx.violation("C05/wrong-claimed-evaluation-accepted", format!("a claimed evaluation that differs from the committed layer-0 value was accepted; {}", ctxt()));
     }
-    if !far && fkind == 3 && strategy == Strategy::Honest && !wrong_claim && !real.accepted() {
+    // (with a bound + 1 that is not a power of two the honest remainder, which always has a
+    // power-of-two number of coefficients, is longer than the bound allows: no completeness claim)
+    if !far && fkind == 3 && strategy == Strategy::Honest && !wrong_claim && !real.accepted() && n == full {
         ctx.violation(format!("C05/control-rejected {}", real.short()), format!("honest proof for a low-degree polynomial rejected; {}", ctxt()));
     }
     if far && strategy == Strategy::S5LongRemainder && real.accepted() {
